@@ -408,6 +408,12 @@ impl<'b> Roots<'b> {
             let mut stack: Vec<GcPtr<Thread>> = Vec::new();
             let mut locks: Vec<(_, _, GcPtr<Thread>)> = Vec::new();
 
+            #[cfg(gluon_verif)]
+            crate::verif::sched_point(
+                "mark_child_roots.child_threads",
+                &self.vm.child_threads as *const _ as usize,
+                &|| !matches!(self.vm.child_threads.try_read(), Err(sync::TryLockError::WouldBlock)),
+            );
             let child_threads = self.vm.child_threads.read().unwrap();
             stack.extend(child_threads.iter().map(|(_, t)| t.clone()));
 
@@ -420,8 +426,20 @@ impl<'b> Roots<'b> {
 
                 let thread = &*(&*thread_ptr as *const Thread);
 
+                #[cfg(gluon_verif)]
+                crate::verif::sched_point(
+                    "mark_child_roots.context",
+                    &thread.context as *const _ as usize,
+                    &|| !matches!(thread.context.try_lock(), Err(sync::TryLockError::WouldBlock)),
+                );
                 let context = thread.context.lock().unwrap();
 
+                #[cfg(gluon_verif)]
+                crate::verif::sched_point(
+                    "mark_child_roots.child_threads",
+                    &thread.child_threads as *const _ as usize,
+                    &|| !matches!(thread.child_threads.try_read(), Err(sync::TryLockError::WouldBlock)),
+                );
                 let child_threads = thread.child_threads.read().unwrap();
                 stack.extend(child_threads.iter().map(|(_, t)| t.clone()));
 
@@ -515,6 +533,10 @@ unsafe impl Trace for Thread {
         #[cfg(gluon_verif)]
         let verif_prev = gc.verif_enter_thread(self.verif_heaps.0, self.verif_heaps.1);
         self.trace_fields_except_stack(gc);
+        #[cfg(gluon_verif)]
+        crate::verif::sched_point("thread.trace.context", &self.context as *const _ as usize, &|| {
+            !matches!(self.context.try_lock(), Err(sync::TryLockError::WouldBlock))
+        });
         self.context.lock().unwrap().stack.trace(gc);
         #[cfg(gluon_verif)]
         gc.verif_leave_heap(verif_prev);
@@ -806,6 +828,12 @@ impl Thread {
             let mut ptr = context.alloc_owned(Move(vm))?;
 
             unsafe {
+                #[cfg(gluon_verif)]
+                crate::verif::sched_point(
+                    "new_thread.child_threads",
+                    &self.child_threads as *const _ as usize,
+                    &|| !matches!(self.child_threads.try_write(), Err(sync::TryLockError::WouldBlock)),
+                );
                 let mut parent_threads = self.child_threads.write().unwrap();
                 let entry = parent_threads.vacant_entry();
                 ptr.thread_index = entry.key();
@@ -1049,6 +1077,12 @@ impl Thread {
             self.global_state.trace(gc);
         }
         self.rooted_values.read().unwrap().trace(gc);
+        #[cfg(gluon_verif)]
+        crate::verif::sched_point(
+            "trace_fields.child_threads",
+            &self.child_threads as *const _ as usize,
+            &|| !matches!(self.child_threads.try_read(), Err(sync::TryLockError::WouldBlock)),
+        );
         self.child_threads.read().unwrap().trace(gc);
     }
 
@@ -1227,6 +1261,10 @@ where
 #[async_trait]
 impl ThreadInternal for Thread {
     fn context(&self) -> OwnedContext<'_> {
+        #[cfg(gluon_verif)]
+        crate::verif::sched_point("thread.context", &self.context as *const _ as usize, &|| {
+            !matches!(self.context.try_lock(), Err(sync::TryLockError::WouldBlock))
+        });
         OwnedContext {
             thread: self,
             context: self.context.lock().unwrap(),
@@ -1397,6 +1435,12 @@ impl ThreadInternal for Thread {
         // Search from the thread which MAY be a child to the parent. If `parent` could not be
         // found then the threads must be in different branches of the tree
         let self_gen = gc.generation();
+        #[cfg(gluon_verif)]
+        crate::verif::sched_point(
+            "can_share_values_with.context",
+            &other.context as *const _ as usize,
+            &|| !matches!(other.context.try_lock(), Err(sync::TryLockError::WouldBlock)),
+        );
         let other_gen = other.context.lock().unwrap().gc.generation();
         let (parent, mut child) = if self_gen.is_parent_of(other_gen) {
             (self, other)
